@@ -35,3 +35,18 @@ static inline std::vector<std::string> split(const std::string& s, char sep)
 	out.push_back(cur);
 	return out;
 }
+
+// A private path for fix8's GlobalLogger / FileLogger.  NEVER give fix8 a device or shared path
+// (FileLogger rotates = renames its file on construction: as root "/dev/null" gets renamed away),
+// and never rely on the default name (created and rotated in the cwd).
+#include <sys/stat.h>
+#include <unistd.h>
+static inline std::string verif_logfile(const char *stem = "glog")
+{
+	const char *d(getenv("VERIF_RUN_DIR"));
+	std::string dir(d && *d ? d : "/tmp/verif-run");
+	mkdir(dir.c_str(), 0777);
+	std::ostringstream os;
+	os << dir << '/' << stem << '-' << getpid() << ".log";
+	return os.str();
+}
